@@ -141,7 +141,8 @@ def table_rules(facts, rep):
             rep.violation(rule, key, where(f, f.span), "a path performs %d inner reads" % len(inner))
             continue
         if res == 1:
-            good = o[0] == "Err" and o[1] is not None and o[1][0] == "err"
+            good = (o[0] == "Err" and o[1] is not None and o[1][0] == "err") or \
+                   (o[0] == "ErrProp" and o[1] is not None and o[1][0] == "call" and o[1][1].endswith("Read::read") and "inner" in show(o[1]))
             ok &= rep.check(good, rule, key, where(f, f.span), "inner error propagated", "inner read error is not propagated unchanged (%s)" % (o,))
             continue
         must_fail = (n0 == 0 and empty == 0 and match == 0 and ae2 == 0)
